@@ -57,14 +57,14 @@ Proof.
   exfalso. assert ((r' + 1) * (n + 1) <= r * (n + 1)) by (apply Nat.mul_le_mono_r; lia). lia.
 Qed.
 
-(** the final content of cell (c, r) of the (nc+1)-wide result *)
-Variables (data xs : list A) (nc idx : nat).
-Definition fv (r c : nat) : option A :=
+(** the final content of cell (c, r) of the (nc+1)-wide result; [cf r] = the element the
+    iterator supplies for row r *)
+Variables (data : list A) (cf : nat -> option A) (R nc idx : nat).
+Definition fvg (r c : nat) : option A :=
   if c <? idx then nth_error data (r * nc + c)
-  else if c =? idx then nth_error xs r
+  else if c =? idx then cf r
   else nth_error data (r * nc + c - 1).
 
-Let R := length xs.
 Hypothesis Hidx : idx <= nc.
 Hypothesis Hdata : length data = nc * R.
 
@@ -72,17 +72,25 @@ Hypothesis Hdata : length data = nc * R.
 Definition Invc (M j : nat) (m : list (option A)) : Prop :=
   length m = M /\
   (forall r c, r < R -> c <= nc -> j * (nc + 1) + idx <= r * (nc + 1) + c ->
-     nth_error m (r * (nc + 1) + c) = Some (fv r c)) /\
+     nth_error m (r * (nc + 1) + c) = Some (fvg r c)) /\
   (forall p, p < j * nc + idx -> nth_error m p = Some (nth_error data p)).
 
-Lemma insert_col_loop_ok cl M : (nc + 1) * R <= M ->
+(** the loop with ANY iterator script whose k-th yield (from the back) is the element of
+    row R-1-k: it never leaves the buffer; when it completes, every row is in place *)
+Lemma insert_col_loop_gen (s : iter_script A) M : (nc + 1) * R <= M ->
+  (forall k e, k < R -> script_next_back s k = Yield e -> cf (R - 1 - k) = Some e) ->
   forall j m, j < R -> Invc M j m ->
-  exists m', insert_col_loop (mkScript cl xs None) nc j (R - j) (j * nc + idx) (j * (nc + 1) + idx) m
-             = Ok (m', true, R, idx, idx) /\ Invc M 0 m'.
+  exists m' completed k' rp' wp',
+    insert_col_loop s nc j (R - j) (j * nc + idx) (j * (nc + 1) + idx) m = Ok (m', completed, k', rp', wp') /\
+    (completed = true -> k' = R /\ rp' = idx /\ wp' = idx /\ Invc M 0 m' /\
+                         forall k, R - j <= k < R -> exists e, script_next_back s k = Yield e) /\
+    (completed = false -> k' < R /\ R - j <= k' /\ forall e, script_next_back s k' <> Yield e).
 Proof.
-  intros HM. induction j as [|j IH]; intros m Hj [Hlen [Hfin Hraw]].
-  - exists m. cbn [insert_col_loop]. rewrite Nat.sub_0_r. cbn [Nat.mul Nat.add].
-    split; [reflexivity|]. split; [exact Hlen|]. split; assumption.
+  intros HM Hcf. induction j as [|j IH]; intros m Hj [Hlen [Hfin Hraw]].
+  - exists m, true, R, idx, idx. cbn [insert_col_loop]. rewrite Nat.sub_0_r. cbn [Nat.mul Nat.add].
+    split; [reflexivity|]. split; [|discriminate].
+    intros _. split; [reflexivity|]. split; [reflexivity|]. split; [reflexivity|].
+    split; [split; [exact Hlen|split; assumption]|]. intros k Hk. lia.
   - cbn [insert_col_loop]. unfold usub.
     destruct (Nat.leb_spec nc (S j * nc + idx)); [|nia]. cbn [bind].
     destruct (Nat.leb_spec nc (S j * (nc + 1) + idx)); [|nia]. cbn [bind].
@@ -92,36 +100,63 @@ Proof.
     destruct (ptr_copy_ok rp wp nc m) as [m1 E1]; [nia|nia|]. rewrite E1. cbn [bind].
     apply ptr_copy_spec in E1. destruct E1 as [L1 N1].
     destruct (Nat.leb_spec 1 wp); [|lia]. cbn [bind].
-    assert (Hk : nth_error (rev xs) (R - S j) = nth_error xs j).
-    { rewrite nth_error_rev_local by (fold R; lia). f_equal. fold R. lia. }
-    destruct (nth_error xs j) as [e|] eqn:Ee; [|apply nth_error_None in Ee; fold R in Ee; lia].
-    rewrite (script_next_back_honest xs cl (R - S j) e Hk).
+    destruct (script_next_back s (R - S j)) as [e| |] eqn:Esn.
+    2,3: (eexists; exists false; do 3 eexists; split; [reflexivity|]; split; [discriminate|];
+          intros _; split; [lia|]; split; [lia|]; intros e He; congruence).
+    pose proof (Hcf (R - S j) e ltac:(lia) Esn) as Ee. replace (R - 1 - (R - S j)) with j in Ee by lia.
     destruct (ptr_write_ok (wp - 1) e m1) as [m2 E2]; [nia|]. rewrite E2. cbn [bind].
     apply ptr_write_spec in E2. destruct E2 as [L2 N2].
     replace (S (R - S j)) with (R - j) by lia.
     replace (wp - 1) with (j * (nc + 1) + idx) by lia. rewrite Hrp.
-    apply IH; [lia|].
-    split; [lia|]. split.
-    + intros r c Hr Hc Hp. rewrite N2.
-      destruct (Nat.eqb_spec (r * (nc + 1) + c) (wp - 1)) as [Eq|Hne].
-      * (* the inserted element of row j *)
-        assert (Hu : r = j /\ c = idx) by (apply (cell_unique nc); [assumption|assumption|lia]). destruct Hu as [-> ->].
-        unfold fv. rewrite Nat.ltb_irrefl, Nat.eqb_refl, Ee. reflexivity.
-      * rewrite N1.
-        destruct (Nat.leb_spec wp (r * (nc + 1) + c)); destruct (Nat.ltb_spec (r * (nc + 1) + c) (wp + nc)); cbn [andb].
-        -- (* moved by this block copy: row j's tail or row j+1's head *)
-           rewrite Hraw by nia. f_equal. unfold fv.
-           destruct (Nat.eq_dec r j) as [->|Hrj].
-           ++ destruct (Nat.ltb_spec c idx); [nia|]. destruct (Nat.eqb_spec c idx); [nia|]. f_equal. nia.
-           ++ assert (r = S j) by nia. subst r. destruct (Nat.ltb_spec c idx); [f_equal; nia|nia].
-        -- apply Hfin; [assumption|assumption|nia].
-        -- nia.
-        -- nia.
-    + intros p Hp. rewrite N2. destruct (Nat.eqb_spec p (wp - 1)); [nia|]. rewrite N1.
-      destruct (Nat.leb_spec wp p); [nia|]. cbn [andb]. apply Hraw. nia.
+    destruct (IH m2) as [m' [completed [k' [rp' [wp' [E [Hc Hf]]]]]]]; [lia| |].
+    { split; [lia|]. split.
+      + intros r c Hr Hc Hp. rewrite N2.
+        destruct (Nat.eqb_spec (r * (nc + 1) + c) (wp - 1)) as [Eq|Hne].
+        * (* the inserted element of row j *)
+          assert (Hu : r = j /\ c = idx) by (apply (cell_unique nc); [assumption|assumption|lia]). destruct Hu as [-> ->].
+          unfold fvg. rewrite Nat.ltb_irrefl, Nat.eqb_refl, Ee. reflexivity.
+        * rewrite N1.
+          destruct (Nat.leb_spec wp (r * (nc + 1) + c)); destruct (Nat.ltb_spec (r * (nc + 1) + c) (wp + nc)); cbn [andb].
+          -- (* moved by this block copy: row j's tail or row j+1's head *)
+             rewrite Hraw by nia. f_equal. unfold fvg.
+             destruct (Nat.eq_dec r j) as [->|Hrj].
+             ++ destruct (Nat.ltb_spec c idx); [nia|]. destruct (Nat.eqb_spec c idx); [nia|]. f_equal. nia.
+             ++ assert (r = S j) by nia. subst r. destruct (Nat.ltb_spec c idx); [f_equal; nia|nia].
+          -- apply Hfin; [assumption|assumption|nia].
+          -- nia.
+          -- nia.
+      + intros p Hp. rewrite N2. destruct (Nat.eqb_spec p (wp - 1)); [nia|]. rewrite N1.
+        destruct (Nat.leb_spec wp p); [nia|]. cbn [andb]. apply Hraw. nia. }
+    exists m', completed, k', rp', wp'. split; [exact E|]. split.
+    + intros Ht. destruct (Hc Ht) as [Q1 [Q2 [Q3 [Q4 Q5]]]]. repeat (split; [assumption|]).
+      intros k Hk. destruct (Nat.eq_dec k (R - S j)) as [->|Hne]; [exists e; exact Esn|apply Q5; lia].
+    + intros Hfl. destruct (Hf Hfl) as [Q1 [Q2 Q3]]. split; [exact Q1|]. split; [lia|exact Q3].
 Qed.
 
 End InsertCol.
+
+(** honest iterators: the supplied column [xs], top to bottom *)
+Definition fv {A} (data xs : list A) (nc idx r c : nat) : option A := fvg data (nth_error xs) nc idx r c.
+
+Lemma insert_col_loop_ok {A} (data xs : list A) nc idx (Hidx : idx <= nc) (Hdata : length data = nc * length xs) cl M :
+  (nc + 1) * length xs <= M ->
+  forall j m, j < length xs -> Invc data (nth_error xs) (length xs) nc idx M j m ->
+  exists m', insert_col_loop (mkScript cl xs None) nc j (length xs - j) (j * nc + idx) (j * (nc + 1) + idx) m
+             = Ok (m', true, length xs, idx, idx) /\ Invc data (nth_error xs) (length xs) nc idx M 0 m'.
+Proof.
+  intros HM j m Hj Hinv.
+  destruct (insert_col_loop_gen data (nth_error xs) (length xs) nc idx Hidx Hdata (mkScript cl xs None) M HM) with (j := j) (m := m)
+    as [m' [completed [k' [rp' [wp' [E [Hc Hf]]]]]]]; try assumption.
+  - intros k e Hk Hy. unfold script_next_back in Hy. cbn [panic_at items] in Hy.
+    destruct (nth_error (rev xs) k) as [x|] eqn:Ex; [|discriminate]. inversion Hy; subst x.
+    rewrite nth_error_rev_local in Ex by lia. rewrite <- Ex. f_equal; lia.
+  - destruct completed.
+    + destruct (Hc eq_refl) as [-> [-> [-> [Hinv0 _]]]]. exists m'. split; [exact E|exact Hinv0].
+    + exfalso. destruct (Hf eq_refl) as [Hk' [_ Hny]].
+      unfold script_next_back in Hny. cbn [panic_at items] in Hny.
+      destruct (nth_error (rev xs) k') as [x|] eqn:Ex; [exact (Hny x eq_refl)|].
+      apply nth_error_None in Ex. rewrite rev_length in Ex. lia.
+Qed.
 
 Lemma mulR nc R : 0 < R -> nc * R = (R - 1) * nc + nc.
 Proof. intros H. destruct R as [|R']; [lia|]. cbn [Nat.sub]. rewrite Nat.sub_0_r. lia. Qed.
@@ -146,12 +181,197 @@ Proof.
   exists (x :: d). cbn [all_some]. rewrite Hd. reflexivity.
 Qed.
 
-Lemma fv_some (data xs : list A) nc idx r c : idx <= nc -> length data = nc * length xs ->
-  r < length xs -> c <= nc -> exists x, fv data xs nc idx r c = Some x.
+Lemma fvg_some (data : list A) (cf : nat -> option A) R nc idx r c : idx <= nc -> length data = nc * R ->
+  (forall r, r < R -> exists x, cf r = Some x) ->
+  r < R -> c <= nc -> exists x, fvg data cf nc idx r c = Some x.
 Proof.
-  intros Hidx Hd Hr Hc. unfold fv.
+  intros Hidx Hd Hcf Hr Hc. unfold fvg.
   destruct (Nat.ltb_spec c idx); [apply nth_error_lt_Some; nia|].
-  destruct (Nat.eqb_spec c idx); [apply nth_error_lt_Some; lia|]. apply nth_error_lt_Some. nia.
+  destruct (Nat.eqb_spec c idx); [apply Hcf; exact Hr|]. apply nth_error_lt_Some. nia.
+Qed.
+
+Lemma snb_yield_nth (s : iter_script A) k e : script_next_back s k = Yield e -> nth_error (rev (items s)) k = Some e.
+Proof.
+  unfold script_next_back. destruct (panic_at s) as [p|]; [destruct (p =? k); [discriminate|]|];
+  destruct (nth_error (rev (items s)) k); intros H; inversion H; reflexivity.
+Qed.
+
+(** what the caller is left with when the iterator fails (short or panicking) after [k]
+    elements, or - debug builds - turns out longer than it claimed: the empty array; the
+    old cells and the [k] consumed elements are leaked, the rest is dropped with the iterator *)
+Definition col_failres (t : toodee A) (s : iter_script A) (k : nat) : opres A :=
+  mkOp (mkTD [] 0 0) false (rev_unconsumed s k) (data t ++ firstn k (rev (items s))).
+(** the iterator keeps its promise: [R] elements, and (checked in debug builds only) no more *)
+Definition col_full (dbg : bool) (s : iter_script A) (R : nat) : Prop :=
+  (forall k, k < R -> exists e, script_next_back s k = Yield e) /\ (dbg = true -> script_next_back s R = Done).
+
+(** insert_col past its argument checks with ANY iterator script that claims [R] elements:
+    it never touches memory outside the reserved buffer or a moved-out slot (Ok, not UB);
+    it either fails as [col_failres] or - exactly when the iterator keeps its promise -
+    succeeds with every cell in place *)
+Theorem insert_col_gen dbg cap spare (t : toodee A) idx (s : iter_script A) R :
+  Inv t -> idx <= num_cols t -> claimed s = N.of_nat R -> (num_cols t = 0 \/ R = num_rows t) ->
+  (N.of_nat (length (data t)) + N.of_nat R <= cap)%N ->
+  let nc := num_cols t in
+  let cf := fun r => nth_error (rev (items s)) (R - 1 - r) in
+  exists res, insert_col dbg cap spare t (N.of_nat idx) s = Ok res /\
+   ((~ col_full dbg s R /\ exists k, k <= R /\ res = col_failres t s k) \/
+    (col_full dbg s R /\ exists d',
+       res = mkOp (if 0 <? R then mkTD d' R (nc + 1) else mkTD d' 0 0) true (rev_unconsumed s R) [] /\
+       length d' = (nc + 1) * R /\
+       forall r c, r < R -> c <= nc -> nth_error d' (r * (nc + 1) + c) = fvg (data t) cf nc idx r c)).
+Proof.
+  intros [Hlen Hz] Hidx Hcl Hw Hcap nc cf. fold nc in Hlen, Hz, Hidx, Hw.
+  assert (Hdata : length (data t) = nc * R).
+  { destruct Hw as [H0|Hx]; [rewrite Hlen, H0; lia|rewrite Hlen, Hx; reflexivity]. }
+  unfold insert_col. rewrite Hcl.
+  destruct (N.leb_spec (N.of_nat idx) (N.of_nat (num_cols t))) as [_|]; [|unfold nc in *; lia]. cbn [negb].
+  assert (Hheight : (if num_cols t =? 0 then Some (N.of_nat R)
+                     else if (N.of_nat (num_rows t) =? N.of_nat R)%N then Some (N.of_nat R) else None)
+                    = Some (N.of_nat R)).
+  { destruct (Nat.eqb_spec (num_cols t) 0); [reflexivity|]. destruct Hw as [|Hx]; [contradiction|].
+    rewrite Hx, N.eqb_refl. reflexivity. }
+  rewrite Hheight. unfold reserve_ok.
+  destruct (N.leb_spec (N.of_nat (length (data t)) + N.of_nat R) cap); [|lia]. cbn [negb].
+  rewrite !Nat2N.id. fold nc. unfold usub. destruct (Nat.leb_spec idx nc); [|lia]. cbn [bind].
+  destruct (reserve_shape (data t) spare R) as [k [Hk Em0]]. rewrite Em0.
+  set (m0 := map Some (data t) ++ repeat None k).
+  assert (Hl0 : length m0 = nc * R + k) by (unfold m0; rewrite app_length, map_length, repeat_length; lia).
+  set (M := length m0).
+  fold (col_failres t s).
+  destruct (Nat.ltb_spec 0 R) as [HR|HR0].
+  - (* at least one row: the last row's suffix, its new element, then the loop *)
+    rewrite Hdata. pose proof (mulR nc R HR) as EnR. pose proof (Nat.le_0_l ((R - 1) * nc)) as Hpos.
+    destruct (Nat.leb_spec (nc - idx) (nc * R)); [|lia]. cbn [bind].
+    destruct (Nat.leb_spec (nc - idx) (nc * R + R)); [|lia]. cbn [bind].
+    set (rp := nc * R - (nc - idx)). set (wp := nc * R + R - (nc - idx)).
+    assert (Hrp : rp = (R - 1) * nc + idx) by (subst rp; lia).
+    assert (Hwp : wp = (R - 1) * (nc + 1) + idx + 1) by (subst wp; lia).
+    destruct (ptr_copy_ok rp wp (nc - idx) m0) as [m1 E1]; [lia|lia|]. rewrite E1. cbn [bind].
+    apply ptr_copy_spec in E1. destruct E1 as [L1 N1].
+    destruct (Nat.leb_spec 1 wp); [|lia]. cbn [bind].
+    destruct (script_next_back s 0) as [e| |] eqn:E0.
+    2,3: (cbn [bind negb]; eexists; split; [reflexivity|]; left; split;
+          [intros [Hy _]; destruct (Hy 0 HR) as [e He]; congruence|exists 0; split; [lia|reflexivity]]).
+    assert (Ee : cf (R - 1) = Some e).
+    { unfold cf. replace (R - 1 - (R - 1)) with 0 by lia. apply snb_yield_nth. exact E0. }
+    destruct (ptr_write_ok (wp - 1) e m1) as [m2 E2]; [lia|]. rewrite E2. cbn [bind].
+    apply ptr_write_spec in E2. destruct E2 as [L2 N2].
+    assert (Hm0 : forall p, p < nc * R -> nth_error m0 p = Some (nth_error (data t) p)).
+    { intros p Hp. unfold m0. rewrite nth_error_app, map_length. destruct (Nat.ltb_spec p (length (data t))); [|lia].
+      rewrite nth_error_map. destruct (nth_error (data t) p) eqn:Ep; [reflexivity|apply nth_error_None in Ep; lia]. }
+    assert (Hinv : Invc (data t) cf R nc idx M (R - 1) m2).
+    { split; [lia|]. split.
+      - intros r c Hr Hc Hp.
+        assert (Hrc : r = R - 1 /\ idx <= c).
+        { destruct (cell_le nc (R - 1) idx r c Hidx Hc Hp) as [Hlt|[Heq Hle]]; [lia|split; [symmetry; exact Heq|exact Hle]]. }
+        destruct Hrc as [-> Hci]. rewrite N2.
+        destruct (Nat.eqb_spec ((R - 1) * (nc + 1) + c) (wp - 1)) as [Eq|Hne].
+        + assert (c = idx) by lia. subst c. unfold fvg. rewrite Nat.ltb_irrefl, Nat.eqb_refl, Ee. reflexivity.
+        + rewrite N1. destruct (Nat.leb_spec wp ((R - 1) * (nc + 1) + c)); [|lia].
+          destruct (Nat.ltb_spec ((R - 1) * (nc + 1) + c) (wp + (nc - idx))); [|lia]. cbn [andb].
+          rewrite Hm0 by lia. f_equal. unfold fvg.
+          destruct (Nat.ltb_spec c idx); [lia|]. destruct (Nat.eqb_spec c idx); [lia|]. f_equal. lia.
+      - intros p Hp. rewrite N2. destruct (Nat.eqb_spec p (wp - 1)); [lia|]. rewrite N1.
+        destruct (Nat.leb_spec wp p); [lia|]. cbn [andb]. apply Hm0. lia. }
+    destruct (insert_col_loop_gen (data t) cf R nc idx Hidx Hdata s M ltac:(lia)) with (j := R - 1) (m := m2)
+      as [m3 [completed [k' [rp' [wp' [E3 [Htrue Hfalse]]]]]]]; [|lia|exact Hinv|].
+    { intros k0 e0 Hk0 Hy. unfold cf. replace (R - 1 - (R - 1 - k0)) with k0 by lia. apply snb_yield_nth. exact Hy. }
+    replace (R - (R - 1)) with 1 in E3, Htrue, Hfalse by lia.
+    replace (wp - 1) with ((R - 1) * (nc + 1) + idx) by lia. rewrite Hrp. rewrite E3. cbn [bind].
+    destruct completed; cbn [negb].
+    2: { destruct (Hfalse eq_refl) as [Hk' [Hlo Hny]].
+         eexists; split; [reflexivity|]. left. split.
+         - intros [Hy _]. destruct (Hy k' Hk') as [e' He']. exact (Hny e' He').
+         - exists k'. split; [lia|reflexivity]. }
+    destruct (Htrue eq_refl) as [-> [-> [-> [Hinv3 Hys]]]].
+    assert (Hyall : forall k, k < R -> exists e, script_next_back s k = Yield e).
+    { intros k0 Hk0. destruct (Nat.eq_dec k0 0) as [->|Hne]; [exists e; exact E0|apply Hys; lia]. }
+    rewrite Nat.leb_refl. cbn [bind]. rewrite Nat.sub_diag.
+    destruct Hinv3 as [L3 [F3 R3]].
+    destruct (ptr_copy_ok 0 0 idx m3) as [m4 E4]; [lia|lia|]. rewrite E4. cbn [bind].
+    apply ptr_copy_spec in E4. destruct E4 as [L4 N4].
+    assert (Hm4 : forall p, nth_error m4 p = nth_error m3 p).
+    { intros p. rewrite N4. destruct ((0 <=? p) && (p <? 0 + idx)); [f_equal; lia|reflexivity]. }
+    cbn [negb].
+    (* every slot below new_len is initialised with its final content *)
+    assert (Hall : forall r c, r < R -> c <= nc -> nth_error m4 (r * (nc + 1) + c) = Some (fvg (data t) cf nc idx r c)).
+    { intros r c Hr Hc. rewrite Hm4.
+      destruct (Nat.le_gt_cases idx (r * (nc + 1) + c)) as [Hge|Hlt].
+      - apply F3; [exact Hr|exact Hc|lia].
+      - destruct (cell_zero nc r c idx Hlt Hidx) as [-> Hci]. cbn [Nat.mul Nat.add].
+        rewrite R3 by lia. unfold fvg. destruct (Nat.ltb_spec c idx); [|lia]. reflexivity. }
+    assert (Hcells : forall p, p < (nc + 1) * R -> exists r c, r < R /\ c <= nc /\ p = r * (nc + 1) + c).
+    { intros p Hp. exists (p / (nc + 1)), (p mod (nc + 1)).
+      pose proof (Nat.div_mod p (nc + 1) ltac:(lia)). pose proof (Nat.mod_upper_bound p (nc + 1) ltac:(lia)).
+      split; [apply Nat.div_lt_upper_bound; lia|]. split; lia. }
+    assert (Hcfs : forall r, r < R -> exists x, cf r = Some x).
+    { intros r Hr. destruct (Hyall (R - 1 - r) ltac:(lia)) as [x Hx]. exists x. unfold cf. apply snb_yield_nth. exact Hx. }
+    assert (Hbuild : exists d, all_some (firstn (nc * R + R) m4) = Some d).
+    { apply all_some_build. intros p Hp. rewrite firstn_length in Hp.
+      destruct (Hcells p ltac:(lia)) as [r [c [Hr [Hc ->]]]].
+      destruct (fvg_some (data t) cf R nc idx r c Hidx Hdata Hcfs Hr Hc) as [x Hx].
+      exists x. rewrite nth_error_firstn. destruct (Nat.ltb_spec (r * (nc + 1) + c) (nc * R + R)); [|lia].
+      rewrite Hall by assumption. rewrite Hx. reflexivity. }
+    destruct Hbuild as [d Hd].
+    assert (Hop : owned_prefix m4 (nc * R + R) = Some d).
+    { unfold owned_prefix. destruct (Nat.leb_spec (nc * R + R) (length m4)); [exact Hd|lia]. }
+    assert (Hdl : length d = (nc + 1) * R).
+    { apply all_some_spec in Hd. apply (f_equal (@length _)) in Hd.
+      rewrite firstn_length, map_length in Hd. lia. }
+    assert (Hdn : forall r c, r < R -> c <= nc -> nth_error d (r * (nc + 1) + c) = fvg (data t) cf nc idx r c).
+    { intros r c Hr Hc. apply all_some_spec in Hd.
+      assert (Hn : nth_error (firstn (nc * R + R) m4) (r * (nc + 1) + c) = nth_error (map Some d) (r * (nc + 1) + c))
+        by (rewrite Hd; reflexivity).
+      rewrite nth_error_firstn, nth_error_map in Hn.
+      destruct (Nat.ltb_spec (r * (nc + 1) + c) (nc * R + R)); [|pose proof (cell_lt nc R r c Hr Hc); lia].
+      rewrite Hall in Hn by assumption.
+      destruct (nth_error d (r * (nc + 1) + c)); cbn in Hn; [inversion Hn; reflexivity|discriminate]. }
+    rewrite Hop. destruct (Nat.ltb_spec 0 R); [|lia].
+    assert (Hacc : col_full dbg s R -> exists d', mkOp (mkTD d R (nc + 1)) true (rev_unconsumed s R) [] =
+        mkOp (mkTD d' R (nc + 1)) true (rev_unconsumed s R) [] /\ length d' = (nc + 1) * R /\
+        forall r c, r < R -> c <= nc -> nth_error d' (r * (nc + 1) + c) = fvg (data t) cf nc idx r c).
+    { intros _. exists d. split; [reflexivity|]. split; [exact Hdl|exact Hdn]. }
+    destruct dbg.
+    + destruct (script_next_back s R) as [e'| |] eqn:ER.
+      * eexists; split; [reflexivity|]. left. split; [intros [_ Hd']; specialize (Hd' eq_refl); congruence|].
+        exists R. split; [lia|reflexivity].
+      * assert (Hf : col_full true s R) by (split; [exact Hyall|intros _; exact ER]).
+        eexists; split; [reflexivity|]. right. split; [exact Hf|exact (Hacc Hf)].
+      * eexists; split; [reflexivity|]. left. split; [intros [_ Hd']; specialize (Hd' eq_refl); congruence|].
+        exists R. split; [lia|reflexivity].
+    + assert (Hf : col_full false s R) by (split; [exact Hyall|discriminate]).
+      eexists; split; [reflexivity|]. right. split; [exact Hf|exact (Hacc Hf)].
+  - (* an empty column into the empty array *)
+    assert (HR : R = 0) by lia. cbn [bind negb].
+    assert (Hd0 : data t = []) by (apply length_zero_iff_nil; rewrite Hdata; lia).
+    subst m0. rewrite Hd0. cbn [map app length Nat.add].
+    assert (Hop : owned_prefix (repeat (@None A) k) 0 = Some []) by (unfold owned_prefix; cbn; reflexivity).
+    rewrite HR in *. rewrite Hop.
+    assert (Hacc : col_full dbg s 0 -> exists d' : list A, mkOp (mkTD [] 0 0) true (rev_unconsumed s 0) [] =
+        mkOp (mkTD d' 0 0) true (rev_unconsumed s 0) [] /\ length d' = (nc + 1) * 0 /\
+        forall r c, r < 0 -> c <= nc -> nth_error d' (r * (nc + 1) + c) = fvg [] cf nc idx r c).
+    { intros _. exists []. split; [reflexivity|]. split; [cbn; lia|intros r c Hr; lia]. }
+    destruct dbg.
+    + destruct (script_next_back s 0) as [e'| |] eqn:ER.
+      * eexists; split; [reflexivity|]. left. split; [intros [_ Hd']; specialize (Hd' eq_refl); congruence|].
+        exists 0. split; [lia|unfold col_failres; rewrite Hd0; reflexivity].
+      * assert (Hf : col_full true s 0) by (split; [intros k0 Hk0; lia|intros _; exact ER]).
+        eexists; split; [reflexivity|]. right. split; [exact Hf|exact (Hacc Hf)].
+      * eexists; split; [reflexivity|]. left. split; [intros [_ Hd']; specialize (Hd' eq_refl); congruence|].
+        exists 0. split; [lia|unfold col_failres; rewrite Hd0; reflexivity].
+    + assert (Hf : col_full false s 0) by (split; [intros k0 Hk0; lia|discriminate]).
+      eexists; split; [reflexivity|]. right. split; [exact Hf|exact (Hacc Hf)].
+Qed.
+
+(** honest iterators keep their promise *)
+Lemma honest_full dbg (xs : list A) : col_full dbg (honest_script xs) (length xs).
+Proof.
+  unfold honest_script. split.
+  - intros k Hk. destruct (nth_error (rev xs) k) as [x|] eqn:Ex.
+    + exists x. apply script_next_back_honest. exact Ex.
+    + apply nth_error_None in Ex. rewrite rev_length in Ex. lia.
+  - intros _. apply script_next_back_done. lia.
 Qed.
 
 Theorem insert_col_accept dbg cap spare (t : toodee A) idx xs :
@@ -164,113 +384,14 @@ Theorem insert_col_accept dbg cap spare (t : toodee A) idx xs :
     (forall r c, r < length xs -> c <= num_cols t ->
        nth_error d' (r * (num_cols t + 1) + c) = fv (data t) xs (num_cols t) idx r c).
 Proof.
-  intros [Hlen Hz] Hidx Hw Hcap. set (nc := num_cols t) in *. set (R := length xs).
-  assert (Hdata : length (data t) = nc * R).
-  { destruct Hw as [H0|Hx]; [rewrite Hlen, H0; lia|rewrite Hlen; subst R; rewrite Hx; reflexivity]. }
-  unfold insert_col, honest_script. cbn [items claimed].
-  destruct (N.leb_spec (N.of_nat idx) (N.of_nat (num_cols t))) as [_|]; [|lia]. cbn [negb].
-  assert (Hheight : (if num_cols t =? 0 then Some (N.of_nat R)
-                     else if (N.of_nat (num_rows t) =? N.of_nat R)%N then Some (N.of_nat R) else None)
-                    = Some (N.of_nat R)).
-  { destruct (Nat.eqb_spec (num_cols t) 0); [reflexivity|]. destruct Hw as [|Hx]; [contradiction|].
-    subst R. rewrite Hx, N.eqb_refl. reflexivity. }
-  fold R. rewrite Hheight. unfold reserve_ok.
-  destruct (N.leb_spec (N.of_nat (length (data t)) + N.of_nat R) cap); [|subst R; lia]. cbn [negb].
-  rewrite !Nat2N.id. fold nc. unfold usub. destruct (Nat.leb_spec idx nc); [|lia]. cbn [bind].
-  destruct (reserve_shape (data t) spare R) as [k [Hk Em0]]. rewrite Em0.
-  set (m0 := map Some (data t) ++ repeat None k).
-  assert (Hl0 : length m0 = nc * R + k) by (unfold m0; rewrite app_length, map_length, repeat_length; lia).
-  set (M := length m0).
-  destruct (Nat.ltb_spec 0 R) as [HR|HR0].
-  - (* at least one row: the last row's suffix, its new element, then the loop *)
-    rewrite Hdata. pose proof (mulR nc R HR) as EnR. pose proof (Nat.le_0_l ((R - 1) * nc)) as Hpos.
-    destruct (Nat.leb_spec (nc - idx) (nc * R)); [|lia]. cbn [bind].
-    destruct (Nat.leb_spec (nc - idx) (nc * R + R)); [|lia]. cbn [bind].
-    set (rp := nc * R - (nc - idx)). set (wp := nc * R + R - (nc - idx)).
-    assert (Hrp : rp = (R - 1) * nc + idx) by (subst rp; lia).
-    assert (Hwp : wp = (R - 1) * (nc + 1) + idx + 1) by (subst wp; lia).
-    destruct (ptr_copy_ok rp wp (nc - idx) m0) as [m1 E1]; [lia|lia|]. rewrite E1. cbn [bind].
-    apply ptr_copy_spec in E1. destruct E1 as [L1 N1].
-    destruct (Nat.leb_spec 1 wp); [|lia]. cbn [bind].
-    assert (Hk0 : nth_error (rev xs) 0 = nth_error xs (R - 1)).
-    { rewrite nth_error_rev_local by (fold R; lia). f_equal. fold R. lia. }
-    destruct (nth_error xs (R - 1)) as [e|] eqn:Ee; [|apply nth_error_None in Ee; fold R in Ee; lia].
-    rewrite (script_next_back_honest xs _ 0 e Hk0).
-    destruct (ptr_write_ok (wp - 1) e m1) as [m2 E2]; [lia|]. rewrite E2. cbn [bind].
-    apply ptr_write_spec in E2. destruct E2 as [L2 N2].
-    assert (Hm0 : forall p, p < nc * R -> nth_error m0 p = Some (nth_error (data t) p)).
-    { intros p Hp. unfold m0. rewrite nth_error_app, map_length. destruct (Nat.ltb_spec p (length (data t))); [|lia].
-      rewrite nth_error_map. destruct (nth_error (data t) p) eqn:Ep; [reflexivity|apply nth_error_None in Ep; lia]. }
-    assert (Hinv : Invc (data t) xs nc idx M (R - 1) m2).
-    { split; [lia|]. split.
-      - intros r c Hr Hc Hp. fold R in Hr.
-        assert (Hrc : r = R - 1 /\ idx <= c).
-        { destruct (cell_le nc (R - 1) idx r c Hidx Hc Hp) as [Hlt|[Heq Hle]]; [lia|split; [symmetry; exact Heq|exact Hle]]. }
-        destruct Hrc as [-> Hci]. rewrite N2.
-        destruct (Nat.eqb_spec ((R - 1) * (nc + 1) + c) (wp - 1)) as [Eq|Hne].
-        + assert (c = idx) by lia. subst c. unfold fv. rewrite Nat.ltb_irrefl, Nat.eqb_refl, Ee. reflexivity.
-        + rewrite N1. destruct (Nat.leb_spec wp ((R - 1) * (nc + 1) + c)); [|lia].
-          destruct (Nat.ltb_spec ((R - 1) * (nc + 1) + c) (wp + (nc - idx))); [|lia]. cbn [andb].
-          rewrite Hm0 by lia. f_equal. unfold fv.
-          destruct (Nat.ltb_spec c idx); [lia|]. destruct (Nat.eqb_spec c idx); [lia|]. f_equal. lia.
-      - intros p Hp. rewrite N2. destruct (Nat.eqb_spec p (wp - 1)); [lia|]. rewrite N1.
-        destruct (Nat.leb_spec wp p); [lia|]. cbn [andb]. apply Hm0. lia. }
-    destruct (insert_col_loop_ok (data t) xs nc idx Hidx Hdata (N.of_nat R) M ltac:(fold R; lia) (R - 1) m2
-                ltac:(fold R; lia) Hinv) as [m3 [E3 Hinv3]].
-    fold R in E3. replace (R - (R - 1)) with 1 in E3 by lia.
-    replace (wp - 1) with ((R - 1) * (nc + 1) + idx) by lia. rewrite Hrp. rewrite E3. cbn [bind negb].
-    rewrite Nat.leb_refl. cbn [bind]. rewrite Nat.sub_diag.
-    destruct Hinv3 as [L3 [F3 R3]].
-    destruct (ptr_copy_ok 0 0 idx m3) as [m4 E4]; [lia|lia|]. rewrite E4. cbn [bind].
-    apply ptr_copy_spec in E4. destruct E4 as [L4 N4].
-    assert (Hm4 : forall p, nth_error m4 p = nth_error m3 p).
-    { intros p. rewrite N4. destruct ((0 <=? p) && (p <? 0 + idx)); [f_equal; lia|reflexivity]. }
-    cbn [negb].
-    rewrite (script_next_back_done xs _ R (Nat.le_refl _)).
-    assert (Hextra : (if dbg then Some (false, S R) else @None (bool * nat)) = (if dbg then Some (false, S R) else None)) by reflexivity.
-    (* every slot below new_len is initialised with its final content *)
-    assert (Hall : forall r c, r < R -> c <= nc -> nth_error m4 (r * (nc + 1) + c) = Some (fv (data t) xs nc idx r c)).
-    { intros r c Hr Hc. rewrite Hm4.
-      destruct (Nat.le_gt_cases idx (r * (nc + 1) + c)) as [Hge|Hlt].
-      - apply F3; [exact Hr|exact Hc|lia].
-      - destruct (cell_zero nc r c idx Hlt Hidx) as [-> Hci]. cbn [Nat.mul Nat.add].
-        rewrite R3 by lia. unfold fv. destruct (Nat.ltb_spec c idx); [|lia]. reflexivity. }
-    assert (Hcells : forall p, p < (nc + 1) * R -> exists r c, r < R /\ c <= nc /\ p = r * (nc + 1) + c).
-    { intros p Hp. exists (p / (nc + 1)), (p mod (nc + 1)).
-      pose proof (Nat.div_mod p (nc + 1) ltac:(lia)). pose proof (Nat.mod_upper_bound p (nc + 1) ltac:(lia)).
-      split; [apply Nat.div_lt_upper_bound; lia|]. split; lia. }
-    assert (Hbuild : exists d, all_some (firstn (nc * R + R) m4) = Some d).
-    { apply all_some_build. intros p Hp. rewrite firstn_length in Hp.
-      destruct (Hcells p ltac:(lia)) as [r [c [Hr [Hc ->]]]].
-      destruct (fv_some (data t) xs nc idx r c Hidx Hdata Hr Hc) as [x Hx].
-      exists x. rewrite nth_error_firstn. destruct (Nat.ltb_spec (r * (nc + 1) + c) (nc * R + R)); [|lia].
-      rewrite Hall by assumption. rewrite Hx. reflexivity. }
-    destruct Hbuild as [d Hd].
-    assert (Hop : owned_prefix m4 (nc * R + R) = Some d).
-    { unfold owned_prefix. destruct (Nat.leb_spec (nc * R + R) (length m4)); [exact Hd|lia]. }
-    assert (Hunc : rev_unconsumed (mkScript (N.of_nat R) xs None) R = []).
-    { unfold rev_unconsumed. cbn [items]. apply skipn_all2. rewrite rev_length. fold R. lia. }
-    exists d. split; [|split].
-    + destruct dbg; rewrite Hop, Hunc; destruct (Nat.ltb_spec 0 R); try lia; reflexivity.
-    + apply all_some_spec in Hd. apply (f_equal (@length _)) in Hd.
-      rewrite firstn_length, map_length in Hd. lia.
-    + intros r c Hr Hc. apply all_some_spec in Hd.
-      assert (Hn : nth_error (firstn (nc * R + R) m4) (r * (nc + 1) + c) = nth_error (map Some d) (r * (nc + 1) + c))
-        by (rewrite Hd; reflexivity).
-      rewrite nth_error_firstn, nth_error_map in Hn.
-      destruct (Nat.ltb_spec (r * (nc + 1) + c) (nc * R + R)); [|pose proof (cell_lt nc R r c Hr Hc); lia].
-      rewrite Hall in Hn by assumption.
-      destruct (nth_error d (r * (nc + 1) + c)); cbn in Hn; [inversion Hn; reflexivity|discriminate].
-  - (* an empty column into the empty array *)
-    assert (HR : R = 0) by lia. cbn [bind negb].
-    assert (Hd0 : data t = []) by (apply length_zero_iff_nil; rewrite Hdata; lia).
-    assert (Hx0 : xs = []) by (apply length_zero_iff_nil; exact HR).
-    rewrite (script_next_back_done xs _ 0) by (fold R; lia).
-    exists []. subst m0. rewrite Hd0, Hx0. cbn [map app length Nat.add].
-    assert (Hop : owned_prefix (repeat (@None A) k) 0 = Some []) by (unfold owned_prefix; cbn; reflexivity).
-    split; [|split; [cbn; lia|intros r c Hr; cbn in Hr; lia]].
-    unfold rev_unconsumed. cbn [items rev skipn]. rewrite HR.
-    destruct dbg; rewrite Hop; reflexivity.
+  intros Hinv Hidx Hw Hcap.
+  destruct (insert_col_gen dbg cap spare t idx (honest_script xs) (length xs) Hinv Hidx eq_refl Hw Hcap)
+    as [res [E [[Hnf _]|[_ [d' [-> [Hl Hn]]]]]]]; [exfalso; apply Hnf; apply honest_full|].
+  exists d'. split; [|split; [exact Hl|]].
+  - rewrite E. unfold rev_unconsumed, honest_script. cbn [items]. rewrite skipn_all2 by (rewrite rev_length; lia). reflexivity.
+  - intros r c Hr Hc. rewrite (Hn r c Hr Hc). unfold fv, fvg, honest_script. cbn [items].
+    destruct (c <? idx); [reflexivity|]. destruct (c =? idx); [|reflexivity].
+    rewrite nth_error_rev_local by lia. f_equal. lia.
 Qed.
 
 Theorem insert_col_reject dbg cap spare (t : toodee A) (index : N) xs :
@@ -391,7 +512,7 @@ Proof.
     destruct (nth_error xs r) as [x|] eqn:Ex; [|apply nth_error_None in Ex; fold R in Ex; lia].
     rewrite (chunks_nth_local nc data R r Hr).
     rewrite nth_error_insert_at by (rewrite firstn_length, skipn_length; nia).
-    unfold fv. rewrite !nth_error_firstn, !nth_error_skipn.
+    unfold fv, fvg. rewrite !nth_error_firstn, !nth_error_skipn.
     destruct (Nat.ltb_spec c idx).
     + destruct (Nat.ltb_spec c nc); [reflexivity|lia].
     + destruct (Nat.eqb_spec c idx); [exact Ex|].
